@@ -68,6 +68,10 @@ def fam_bounds(tier):
         ('node', True, seq('off', push(S('x')), push(S('y')), push(S('x')), rep('off', 1, 3, 'drop'), opt('peek'), S('y'))),
         ('node', True, seq('off', push(S('x')), push(S('y')), rep('off', 0, 3, neg('pop')), 'peek')),
         ('node', True, seq('off', rep('off', 0, 3, push(S(''))), 'peekall', S('x'))),
+        # unbounded repetitions of stack operations: every iteration succeeds without consuming until the stack is empty
+        ('node', True, seq('off', push(S('x')), push(S('y')), rep('off', 0, None, 'drop'), 'peekall', S('x'))),
+        ('node', True, seq('off', push(S('x')), push(S('')), push(S('')), rep('off', 1, None, 'pop'), opt('peek'), S('y'))),
+        ('node', True, seq('on', push(S('x')), push(S('y')), rep('on', 0, None, 'drop'), opt('peek'), S('y'))),
     ]
     env = Env('bd_misc', skip=rule('ws', 'off'), rules=[WS_RULE], shapes=shapes)
     env.alpha = [b'x', b'y', b' ', 'é'.encode()]
@@ -99,6 +103,7 @@ def fam_stack(tier):
         'pos': lambda body: pos(body),
         'neg': lambda body: neg(body),
         'optok': lambda body: seq('off', opt(body), S('y')),   # inner success whose enclosing sequence may still fail
+        'arep': lambda body: ('atomicrep', body),             # the implicit-skip repetition (AtomicRepeat): iterations restore too
     }
     observers = {'peek': 'peek', 'peekall': 'peekall', 'sl': ('slice', 0, None)}
     envs = []
@@ -111,7 +116,7 @@ def fam_stack(tier):
                     continue
                 shapes.append(('node', True, seq('off', push(S('a')), push(S('b')), c(failing(m)), o)))
     # depth 2: ctx1( m1 ; ctx2(failing(m2)) ; "z" ) ; observer   -- the inner attempt may succeed while the outer fails
-    inner_ctx = ['cho', 'opt', 'rep', 'pos', 'neg']
+    inner_ctx = ['cho', 'opt', 'rep', 'pos', 'neg', 'arep']
     outer_ctx = ['cho', 'opt', 'rep', 'pos', 'neg']
     m1s = ['pa', 'pop', 'drop'] if tier == 'quick' else ['pa', 'pop', 'drop', 'popall', 'pab']
     m2s = ['pb', 'pop', 'drop', 'popall'] if tier == 'quick' else list(muts)
@@ -205,6 +210,8 @@ def fam_misc(tier):
         ('rec', 'inh', 'both', choice(seq('inh', S('('), rule('rec'), S(')')), S('a')), True),    # recursive (boxed)
         ('pred', 'inh', 'both', seq('inh', pos(rule('n')), neg(rule('at')), neg(neg(S('a'))), 'any', 'any'), False),
         ('lst', 'inh', 'both', seq('inh', 'soi', star('inh', rule('n')), rule('EOI')), False),
+        ('bnd', 'inh', 'both', seq('inh', rep('inh', 1, 3, rule('n')), opt(S('c'))), False),     # counted repetition of rules: skipped tokens in between
+        ('bx', 'inh', 'both', rep('inh', 2, 2, rule('s')), False),
     ]
     shapes = [('rule', r[0]) for r in rules] + [('rule', 'EOI')]
     env = Env('mi_rules', skip=choice(rule('ws', 'off'), rule('cm', 'off')), rules=rules, shapes=shapes)
@@ -240,7 +247,24 @@ def fam_misc(tier):
     env2.maxlen = 3 if tier == 'quick' else 4
     env2.family = 'misc'
     env2.pred_names = ['ALPHABETIC', 'UPPERCASE_LETTER', 'EMOJI']
-    return [env, env2]
+    # reports that hold BOTH kinds of attempts in one entry: a keyword matched under a negative predicate (unexpected) and
+    # a leaf rule that failed (expected) at the same position under the same enclosing rule, plus special errors next to rules
+    rules3 = [
+        ('kw', 'true', 'span', seq('off', choice(S('if'), S('el')), neg(R('a', 'z'))), False),
+        ('ident', 'true', 'span', seq('off', neg(rule('kw', 'off')), R('a', 'z'), star('off', R('a', 'z'))), False),
+        ('num', 'true', 'span', plus('off', R('0', '9')), False),
+        ('atom', 'inh', 'both', choice(rule('ident'), rule('num')), False),
+        ('main', 'inh', 'both', seq('inh', S('='), rule('atom')), False),
+        ('two', 'inh', 'both', seq('inh', rule('atom'), S(','), neg(rule('num')), rule('atom')), False),
+        ('stk', 'inh', 'both', seq('inh', opt(push(rule('num'))), S('='), choice(seq('inh', 'pop', rule('num')), rule('ident'))), False),
+    ]
+    env3 = Env('mi_mixed', skip=None, rules=rules3, shapes=[('rule', r[0]) for r in rules3])
+    env3.alpha = [b'=', b'i', b'f', b'1', b',', b'x']
+    env3.maxlen = 4 if tier == 'quick' else 5
+    env3.extra = [b'=el', b'=elx', b'if,1', b'x,1', b'1,if', b'1=1x', b'1=if', b'=if1', b'x,if', b'1,1']
+    env3.family = 'misc'
+    env3.audit = True
+    return [env, env2, env3]
 
 
 # ------------------------------------------------------------------ uni: multi-byte alphabets (C09)
